@@ -37,14 +37,17 @@ async def replay(script, n):
     cms = {}
     ev = []
 
+    # a mapping is identified in the spec by m >= 1 (0 = free); the REAL logical address is m - 1, so that the
+    # logical address 0 - a legitimate argument of map_fmmu - is among those used (a seeded change that took a slot
+    # mapped to address 0 for free had gone unnoticed while the harness used the addresses 1, 2, 3)
     def tbl():
-        return [x or 0 for x in t.fmmu_used]
+        return [0 if x is None else x + 1 for x in t.fmmu_used]
 
     for op in script:
         m = op["m"]
         mark = len(ec.log)
         if op["op"] == "map":
-            cm = t.map_fmmu(m, op["write"])
+            cm = t.map_fmmu(m - 1, op["write"])
             try:
                 slot = await cm.__aenter__()
             except Exception as e:
@@ -56,7 +59,7 @@ async def replay(script, n):
             w = [x for x in ec.log[mark:] if x[0] == "FPWR" and 0x600 <= x[1] < 0x700]
             if len(w) == 1 and (w[0][1] - 0x600) % 0x10 == 0 and len(w[0][2]) == 9:
                 a = w[0][2]
-                e["reg"] = dict(idx=(w[0][1] - 0x600) // 0x10, logical=a[1], dir=a[7], act=a[8],
+                e["reg"] = dict(idx=(w[0][1] - 0x600) // 0x10, logical=a[1] + 1, dir=a[7], act=a[8],
                                 size=a[2], off=a[5])
             else:
                 e["reg"] = dict(idx=-1, logical=0, dir=0, act=0, size=0, off=0, raw=repr(w))
@@ -93,19 +96,17 @@ async def replay_concurrent(pre, batch, order, n):
     cms, ev = {}, []
 
     def tbl():
-        return [x or 0 for x in t.fmmu_used]
+        return [0 if x is None else x + 1 for x in t.fmmu_used]
 
     def reg_of(writes):
         w = [x for x in writes if x[0] == "FPWR" and 0x600 <= x[1] < 0x700]
         if len(w) == 1 and (w[0][1] - 0x600) % 0x10 == 0 and len(w[0][2]) == 9:
             a = w[0][2]
-            return dict(idx=(w[0][1] - 0x600) // 0x10, logical=a[1], dir=a[7], act=a[8], size=a[2], off=a[5])
+            return dict(idx=(w[0][1] - 0x600) // 0x10, logical=a[1] + 1, dir=a[7], act=a[8], size=a[2], off=a[5])
         return dict(idx=-1, logical=0, dir=0, act=0, size=0, off=0, raw=repr(w))
 
     async def enter(m, write, pending):
-        cm = t.map_fmmu(m, write)
-        mine = []
-        orig = ec.roundtrip
+        cm = t.map_fmmu(m - 1, write)
 
         try:
             slot = await cm.__aenter__()
@@ -116,7 +117,7 @@ async def replay_concurrent(pre, batch, order, n):
         cms[m] = cm
         pending.discard(m)
         # the register write of THIS mapping: the one whose logical address is m
-        w = [x for x in ec.log if x[0] == "FPWR" and 0x600 <= x[1] < 0x700 and len(x[2]) == 9 and x[2][1] == m]
+        w = [x for x in ec.log if x[0] == "FPWR" and 0x600 <= x[1] < 0x700 and len(x[2]) == 9 and x[2][1] == m - 1]
         ev.append(dict(op="map", m=m, write=write, res="ok", slot=slot, tbl=tbl(), reg=reg_of(w[-1:]),
                        loose=bool(pending)))
 
